@@ -101,6 +101,36 @@ func symNow() value {
 func init() {
 	for k, v := range map[string]externalFn{
 		"time.Unix": stUnix,
+		"time.Parse": func(fr *frame, args []value) value {
+			layout, ok1 := args[0].(string)
+			val, ok2 := args[1].(string)
+			if !ok1 || !ok2 {
+				panic(modelAbort{"time.Parse on a symbolic string"})
+			}
+			t, err := time.Parse(layout, val)
+			if err != nil {
+				return tuple{stime{zero: true}, newError(fr.i, err.Error())}
+			}
+			if t.IsZero() {
+				return tuple{stime{zero: true}, iface{}}
+			}
+			if t.Year() < 1700 || t.Year() > 2200 {
+				return tuple{stime{far: true}, iface{}}
+			}
+			return tuple{mkTime(t.UnixNano()), iface{}}
+		},
+		"time.Date": func(fr *frame, args []value) value {
+			for _, a := range args[:7] {
+				if isSym(a) {
+					panic(modelAbort{"time.Date with symbolic components"})
+				}
+			}
+			t := time.Date(int(asInt64(args[0])), time.Month(asInt64(args[1])), int(asInt64(args[2])), int(asInt64(args[3])), int(asInt64(args[4])), int(asInt64(args[5])), int(asInt64(args[6])), time.UTC)
+			if t.IsZero() {
+				return stime{zero: true}
+			}
+			return mkTime(t.UnixNano())
+		},
 		"time.Now":  func(fr *frame, args []value) value { return symNow() },
 		"time.Since": func(fr *frame, args []value) value {
 			return timeSub(st(symNow()), st(args[0]))
@@ -578,6 +608,7 @@ func init() {
 		"fmt.Printf":   func(fr *frame, args []value) value { return tuple{0, iface{}} },
 		"fmt.Println":  func(fr *frame, args []value) value { return tuple{0, iface{}} },
 		"github.com/getlantern/msgpack.RegisterExt": noop,
+		"encoding/gob.Register":                     noop,
 		"github.com/getlantern/golog.LoggerFor": func(fr *frame, args []value) value {
 			lt := namedType(fr.i, "github.com/getlantern/golog", "logger")
 			var cell value = zero(lt)
